@@ -207,12 +207,18 @@ std::shared_ptr<base::ISampledDimension> DataArrayHDF5::createSampledDimension(n
 
 
 std::shared_ptr<base::IDataFrameDimension> DataArrayHDF5::createDataFrameDimension(ndsize_t index, const nix::DataFrame &df, unsigned col_index) {
+    // refuse a frame of another block before the dimension group is created
+    if (!block()->getEntity<IDataFrame>(df.id()))
+        throw std::runtime_error("DataFrameDimensionHDF5 DataFrame not found in block!");
     H5Group g = createDimensionGroup(index);
     return make_shared<DataFrameDimensionHDF5>(g, index, file(), block(), df, col_index);
 }
 
 
 std::shared_ptr<base::IDataFrameDimension> DataArrayHDF5::createDataFrameDimension(ndsize_t index, const nix::DataFrame &df) {
+    // refuse a frame of another block before the dimension group is created
+    if (!block()->getEntity<IDataFrame>(df.id()))
+        throw std::runtime_error("DataFrameDimensionHDF5 DataFrame not found in block!");
     H5Group g = createDimensionGroup(index);
     return make_shared<DataFrameDimensionHDF5>(g, index, file(), block(), df);
 }
